@@ -713,8 +713,8 @@ UNIT = {
         {'name': 'from-vec-single-is-nil', 'item': 'LuaType::from_vec',
          'pattern': r'1 => result_types\[0\]\.clone\(\),', 'repl': '1 => LuaType::Nil,', 'expect': r'C16\.union\.from-vec-is-union-of-distinct-members'},
         {'name': 'from-vec-keeps-duplicates', 'item': 'LuaType::from_vec',
-         'pattern': r'if hash_set\.insert\(typ\.clone\(\)\) \{\s*result_types\.push\(typ\);\s*\}',
-         'repl': 'if hash_set.insert(typ.clone()) {\n result_types.push(typ);\n } else { result_types.push(LuaType::Nil); }',
+         'pattern': r'if !result_types\.contains\(&typ\) \{\s*result_types\.push\(typ\);\s*\}',
+         'repl': 'if !result_types.contains(&typ) {\n result_types.push(typ);\n } else { result_types.push(LuaType::Nil); }',
          'expect': r'C16\.union\.from-vec-is-union-of-distinct-members'},
         {'name': 'union-from-vec-multi-becomes-basic', 'item': 'LuaUnionType::from_vec',
          'pattern': r'Self::Multi\(types\)\s*\}$', 'repl': 'Self::Basic(basic_type)\n    }', 'expect': r'C16\.union\.from-vec-keeps-members'},
